@@ -44,10 +44,10 @@ NoOwner == [k |-> "none", a |-> 0, b |-> 0]
 
 VARIABLES next, pending, received, skipped, hcs, stable, nsk, out, star, lls,   \* implementation (see Trace_ChangeCache for the projection)
           maxNum,                                                            \* configuration of this behaviour
-          owner, legal, docArr, docLive, cnt, rcnt, delivered, hiNL, ordOK, phantom, abandoned, lateSet, lateDoc, lastKind,  \* ghosts
+          owner, legal, docArr, docLive, cnt, rcnt, delivered, hiNL, ordOK, phantom, midOK, abandoned, lateSet, lateDoc, lastKind,  \* ghosts
           hist
 impl  == <<next, pending, received, skipped, hcs, stable, nsk, out, star, lls>>
-ghost == <<maxNum, owner, legal, docArr, docLive, cnt, rcnt, delivered, hiNL, ordOK, phantom, abandoned, lateSet, lateDoc, lastKind>>
+ghost == <<maxNum, owner, legal, docArr, docLive, cnt, rcnt, delivered, hiNL, ordOK, phantom, midOK, abandoned, lateSet, lateDoc, lastKind>>
 vars  == <<impl, ghost, hist>>
 view  == <<impl, ghost>>
 
@@ -72,13 +72,19 @@ IsRange(e) == e.kind = "unused" /\ e.end > 0
 Cur == [next |-> next, pend |-> pending, recv |-> received, skip |-> skipped, hcs |-> hcs,
         out |-> <<>>, star |-> star, lls |-> lls]
 
-(* _addToCache: advance next, forget the received mark, forward to the channel cache *)
+(* _addToCache: advance next, forget the received mark, forward to the channel cache.
+   The skipped list and the channel cache have their own locks and are read by _changes without changeCache.lock
+   (changes.go: getOldestSkippedSequence -> lowSequence), so the states INSIDE a critical section are observable through
+   them.  Every forward therefore records the skipped set and the high cache sequence of that instant (sk, hcs): the
+   order "forward to the channel cache, THEN remove from skipped" of the late-arrival branch and "PushSkipped, THEN
+   advance/forward" of _addPendingLogs is part of the specification (MidNoHiddenGap). *)
 AddToCache(st, e, late) ==
   LET n1 == IF e.seq >= st.next THEN e.seq + 1 ELSE st.next
       n2 == IF e.end # 0 THEN e.end + 1 ELSE n1
       hi == IF e.kind = "unused" /\ e.end > 0 THEN e.end ELSE e.seq
   IN [st EXCEPT !.next = n2, !.recv = @ \ {e.seq}, !.hcs = Max(@, hi),
-                !.out  = Append(@, [seq |-> e.seq, end |-> e.end, kind |-> e.kind, late |-> late]),
+                !.out  = Append(@, [seq |-> e.seq, end |-> e.end, kind |-> e.kind, late |-> late,
+                                    sk |-> st.skip, hcs |-> st.hcs]),   \* what a reader WITHOUT c.lock sees at this instant
                 !.star = IF e.kind = "doc" THEN InsSorted(@, e.seq) ELSE @,
                 !.lls  = IF e.kind = "doc" /\ late THEN e.seq ELSE @]
 
@@ -165,19 +171,30 @@ ImplAbandon        == SetImpl([Cur EXCEPT !.skip = {}])
 Ident(e) == IF e.end > 0 THEN [k |-> "range", a |-> e.seq, b |-> e.end] ELSE [k |-> e.kind, a |-> e.seq, b |-> e.seq]
 Cover(e) == (IF e.end > 0 THEN e.seq..e.end ELSE {e.seq}) \cap Win
 
+HiOf(d) == IF d.kind = "unused" /\ d.end > 0 THEN d.end ELSE d.seq
+(* the lock-free view at one instant: skipped set sk, every sequence up to H is in the channel cache's range;
+   g = what the feed has declared (owner), which document arrivals are live, del = forwards so far *)
+MidOK(sk, H, del, g) ==
+  \A s \in 1..H : \/ s \in sk \/ s \in abandoned
+                   \/ (s \in Win /\ g.owner[s] # NoOwner /\ (s \in g.live => del[s] >= 1))
 RECURSIVE FoldOut(_, _, _, _)
-FoldOut(o, i, da, acc) ==          \* document forwards of this call, in call order
+FoldOut(o, i, g, acc) ==          \* forwards of this call, in call order
   IF i > Len(o) THEN acc
-  ELSE LET d == o[i] IN
-       IF d.kind # "doc" THEN FoldOut(o, i + 1, da, acc)
-       ELSE FoldOut(o, i + 1, da,
-              [del |-> IF d.seq \in Win THEN [acc.del EXCEPT ![d.seq] = @ + 1] ELSE acc.del,
-               hi  |-> IF d.late THEN acc.hi ELSE Max(acc.hi, d.seq),
-               ok  |-> acc.ok /\ (d.late \/ d.seq > acc.hi),
-               ph  |-> acc.ph \/ d.seq \notin da])
-GhostOut(da) ==
-  LET r == FoldOut(out', 1, da, [del |-> delivered, hi |-> hiNL, ok |-> ordOK, ph |-> phantom]) IN
-  delivered' = r.del /\ hiNL' = r.hi /\ ordOK' = r.ok /\ phantom' = r.ph
+  ELSE LET d    == o[i]
+           isd  == d.kind = "doc"
+           del1 == IF isd /\ d.seq \in Win THEN [acc.del EXCEPT ![d.seq] = @ + 1] ELSE acc.del
+       IN FoldOut(o, i + 1, g,
+              [del |-> del1,
+               hi  |-> IF isd /\ ~d.late THEN Max(acc.hi, d.seq) ELSE acc.hi,
+               ok  |-> acc.ok /\ (~isd \/ d.late \/ d.seq > acc.hi),
+               ph  |-> acc.ph \/ (isd /\ d.seq \notin g.docArr),
+               mid |-> /\ acc.mid
+                       /\ MidOK(d.sk, d.hcs, acc.del, g)                    \* just before the channel cache takes it
+                       /\ MidOK(d.sk, Max(d.hcs, HiOf(d)), del1, g)])       \* just after, before the change cache goes on
+GhostOut(da, ow, dl) ==
+  LET r == FoldOut(out', 1, [docArr |-> da, owner |-> ow, live |-> dl],
+                   [del |-> delivered, hi |-> hiNL, ok |-> ordOK, ph |-> phantom, mid |-> midOK]) IN
+  delivered' = r.del /\ hiNL' = r.hi /\ ordOK' = r.ok /\ phantom' = r.ph /\ midOK' = r.mid
 
 Compat(o, id) == o = NoOwner \/ o = id \/ (o.a = id.a /\ o.b = id.b /\ {o.k, id.k} \subseteq {"doc", "recent"})
 GApply(g, e) ==                   \* what the feed has declared so far (pure; also folded over batches)
@@ -194,7 +211,7 @@ GhostEvent(e, lateS) ==
   /\ legal' = g.legal /\ owner' = g.owner /\ docArr' = g.docArr
   /\ lateSet' = lateS /\ lateDoc' = (IF e.kind = "doc" THEN lateS ELSE {}) /\ lastKind' = e.kind
   /\ docLive' = (IF e.kind = "doc" /\ e.end = 0 /\ LiveAt(e.seq) THEN docLive \cup {e.seq} ELSE docLive)
-  /\ GhostOut(g.docArr)
+  /\ GhostOut(g.docArr, g.owner, docLive')
   /\ UNCHANGED <<maxNum, abandoned>>
 GhostArrive(e) == /\ GhostEvent(e, IF e.seq \in skipped THEN {e.seq} ELSE {})
                   /\ cnt' = [s \in Win |-> IF s = e.seq THEN cnt[s] + 1 ELSE cnt[s]] /\ rcnt' = rcnt
@@ -212,12 +229,12 @@ GhostDoc(d) ==
   /\ docLive' = (IF g.legal /\ LiveAt(d.seq) THEN docLive \cup {d.seq} ELSE docLive)   \* sub-entries run first: judged for legal feeds only
   /\ lateSet' = (SeqSet(d.unused) \cup SeqSet(OlderRecent(d)) \cup {d.seq}) \cap skipped
   /\ lateDoc' = {d.seq} \cap skipped /\ lastKind' = "doc"
-  /\ GhostOut(g.docArr)
+  /\ GhostOut(g.docArr, g.owner, docLive')
   /\ cnt' = [s \in Win |-> IF s = d.seq THEN cnt[s] + 1 ELSE cnt[s]] /\ rcnt' = rcnt
   /\ UNCHANGED <<maxNum, abandoned>>
-GhostTick    == /\ GhostOut(docArr) /\ lateSet' = {} /\ lateDoc' = {} /\ lastKind' = "tick"
+GhostTick    == /\ GhostOut(docArr, owner, docLive) /\ lateSet' = {} /\ lateDoc' = {} /\ lastKind' = "tick"
                 /\ UNCHANGED <<maxNum, owner, legal, docArr, docLive, cnt, rcnt, abandoned>>
-GhostAbandon == /\ abandoned' = abandoned \cup skipped /\ GhostOut(docArr) /\ lateSet' = {} /\ lateDoc' = {} /\ lastKind' = "abandon"
+GhostAbandon == /\ abandoned' = abandoned \cup skipped /\ GhostOut(docArr, owner, docLive) /\ lateSet' = {} /\ lateDoc' = {} /\ lastKind' = "abandon"
                 /\ UNCHANGED <<maxNum, owner, legal, docArr, docLive, cnt, rcnt>>
 
 Step(a, e) == hist' = Append(hist, [a |-> a, seq |-> e.seq, end |-> e.end, kind |-> e.kind, old |-> e.old, unused |-> <<>>, recent |-> <<>>])
@@ -233,7 +250,7 @@ Abandon        == ImplAbandon /\ GhostAbandon /\ Step("Abandon", NoEntry)
 InitImpl == /\ next = 1 /\ pending = EmptyBag /\ received = {} /\ skipped = {} /\ hcs = 0 /\ stable = 0 /\ nsk = 0
             /\ out = <<>> /\ star = <<>> /\ lls = 0
 InitGhost == /\ owner = [s \in Win |-> NoOwner] /\ legal = TRUE /\ docArr = {} /\ docLive = {} /\ cnt = [s \in Win |-> 0] /\ rcnt = 0
-             /\ delivered = [s \in Win |-> 0] /\ hiNL = 0 /\ ordOK = TRUE /\ phantom = FALSE /\ abandoned = {}
+             /\ delivered = [s \in Win |-> 0] /\ hiNL = 0 /\ ordOK = TRUE /\ phantom = FALSE /\ midOK = TRUE /\ abandoned = {}
              /\ lateSet = {} /\ lateDoc = {} /\ lastKind = "init"
 Init == InitImpl /\ InitGhost /\ maxNum \in MaxNums /\ hist = <<>>
 
@@ -261,6 +278,12 @@ Delivered ==                                                 \* ... and not lost
 InOrder == ordOK                                             \* non-late forwards are in increasing sequence order
 HwmSound == \A s \in 1..(next - 1) : Arr(s) \/ s \in skipped \/ s \in abandoned
 NoHiddenGap == Missing \subseteq skipped
+(* ... also at every instant INSIDE a call that a reader without c.lock can observe (skipped list + channel cache): below
+   the high cache sequence every sequence is in skipped, or declared unused / arrived and - if it is a live document -
+   already in the channel cache.  A late sequence being forwarded is still in skipped until after it is in the cache;
+   a gap is in skipped before anything beyond it is forwarded.  ("until then changes responses expose the last
+   contiguous sequence so that a client resuming from it cannot miss the late arrival") *)
+MidNoHiddenGap == midOK
 SkippedExact == NoHiddenGap /\ (legal => skipped \subseteq Missing)
 LateIsLate == /\ lateSet \cap skipped = {}
               /\ \A s \in lateDoc :
